@@ -158,6 +158,8 @@ class Stream:
     @htc.setter
     def htc(self, value: float):
         self._htc = value
+        if isinstance(value, float | int) and value != 0.0:
+            self._htr = 1 / value
         self._update_attributes()
 
     @property
